@@ -91,7 +91,6 @@ def check(repo, res, tier):
     res.rule("R-INIT", "sensitivity integrations start from zeros / identity and use matching (func, jac)")
     res.s_clauses = ["S1 R-GRADSEL", "S2 R-SLOT", "S3 R-INIT"]
     res.n_clauses = ["numerical value of the integrated sensitivities (solver numerics; layout decided under C13)",
-                     "the kernels' diff_loss formulas (decided under C14)",
                      "the adjoint gradient (interpolation-based approximation)"]
     bl = repo.cls(M.M_LOSS, "BaseLoss")
     nS, nP = len(STATES), len(PARAMS)
@@ -258,3 +257,10 @@ def check(repo, res, tier):
                 res.check(not problems, "R-INIT", f, tag,
                           "integrates (%s, %s) from [x0; zeros%s] over (t[0], t[1:]) at self._theta and hands back the target columns" % (pair[0], pair[1], "; identity" if iv else ""),
                           "; ".join(problems), node=f.node)
+    from ..rules.sweep import gate_call_arity
+    gate_call_arity(repo, res, {"pygom/loss/base_loss.py", "pygom/loss/ode_loss.py"})
+    # chain rule through the kernel: diff_loss of every kernel is the derivative of its own loss (shared with C14)
+    from . import C14
+    res.rule("R-KERNEL", "each kernel's diff_loss is d loss / d prediction, so the chain rule differentiates the cost that is reported")
+    nk = sum(C14.check_derivatives(repo, res, name, r1="R-KERNEL", r2=None) for name in C14.KERNELS)
+    res.floor("kernels whose first derivative was brought to canonical form", nk // 2, 5)
